@@ -274,6 +274,24 @@ def class_of(f):
     return 'mixed:' + '+'.join(kinds) + ':' + kws + '/' + f['differs']
 
 
+def _two_assignments(failure):
+    """mechanism predicate of finding C11-assignment-stale-index: some statement of the (shrunk) input holds two `:=`
+    tokens (the generic _group driver walks on with stale indices after the first one was grouped up to the far `;`)"""
+    import sqlparse
+    from sqlparse import tokens as T
+    for key in ('input', 'respelled'):
+        try:
+            for st in sqlparse.parse(''.join(map(chr, failure.get(key, [])))):
+                if sum(1 for t in st.flatten() if t.ttype is T.Assignment) >= 2:
+                    return True
+        except Exception:  # noqa
+            pass
+    return False
+
+
+CLASS_PREDICATES = {'two-assignments': _two_assignments}
+
+
 def classify(failure, known):
     """id of the known finding this failure is an instance of, else None.  A failure is an instance of a known
     finding when the respelled positions are of the finding's kind and mention one of its keywords, and the
@@ -284,6 +302,10 @@ def classify(failure, known):
     for k in known:
         pat = k.get('class_regex')
         if pat and re.fullmatch(pat, cls):
+            return k['id']
+    for k in known:
+        pred = CLASS_PREDICATES.get(k.get('class_predicate'))
+        if pred and failure.get('differs') == 'shape' and pred(failure):
             return k['id']
     return None
 
